@@ -1,0 +1,7 @@
+//go:build !verif
+
+package quic
+
+// verifSchedPoint marks a schedule point for the verification harness (build tag verif).
+// Without the tag it does nothing.
+func verifSchedPoint(string) {}
